@@ -52,8 +52,42 @@ def run(job):
     return out
 
 
+def dry(job):
+    """concrete dry runs declared by the harness (hmod.dry_runs() -> iterable of (obligation name, kwargs)):
+    executed without the solver under a call profiler; every result must be a positive tag."""
+    hmod = importlib.import_module(job['module'])
+    entered = set()
+
+    def prof(frame, event, arg):
+        if event == 'call':
+            co = frame.f_code
+            fn = co.co_filename
+            if '/pexpect/' in fn or '/ptyprocess/' in fn:
+                entered.add(frame.f_globals.get('__name__', '?') + '.' + getattr(co, 'co_qualname', co.co_name))
+    n = 0
+    bad = []
+    for name, kw in hmod.dry_runs():
+        fn = getattr(hmod, name)
+        n += 1
+        sys.setprofile(prof)
+        try:
+            try:
+                v = fn(**kw)
+            finally:
+                sys.setprofile(None)
+            if not (isinstance(v, int) and v > 0):
+                bad.append([name, repr(kw)[:200], repr(v)])
+        except BaseException as e:
+            sys.setprofile(None)
+            bad.append([name, repr(kw)[:200], '%s: %s' % (type(e).__name__, e)])
+    return {'dry_runs': n, 'dry_failures': bad[:5], 'n_dry_failures': len(bad), 'entered': sorted(entered)}
+
+
 def main():
     job = json.loads(sys.argv[1])
+    if job.get('mode') == 'dry':
+        sys.stdout.write('\nRESULT:' + json.dumps(dry(job)) + '\n')
+        return
     if os.path.isfile(sys.argv[1]):
         job = json.load(open(sys.argv[1]))
     out = run(job)
